@@ -49,6 +49,9 @@ LIB_D = {            # 6 x 3 grid: notches two rows deep, so that a line in row 
     "V": [(i, 2) for i in range(6)] + [(i, j) for i in (0, 1, 3, 4, 5) for j in (0, 1)],      # arms of 2 and 3 cells
     "W": [(i, 2) for i in range(6)] + [(i, j) for i in (0, 1, 4, 5) for j in (0, 1)],         # two equal arms (ties)
     "T": _rect(0, 5, 0, 2),                                                                    # contains V and W
+    # arms of different HEIGHT: left arm 2 cells wide and 2 rows high, right arm 3 cells wide but 1 row high - for a tall line in
+    # row 1 the longest baseline piece (right) is not the piece with the largest outline area (left)
+    "Y": [(i, 2) for i in range(6)] + [(0, 0), (1, 0), (0, 1), (1, 1)] + [(3, 1), (4, 1), (5, 1)],
 }
 LIBS = {"A": (LIB_A, 6, 2), "B": (LIB_B, 3, 2), "D": (LIB_D, 6, 3)}
 # explicit ring of the self-touching shape (the outline passes twice through the corner (4, 2))
@@ -131,13 +134,13 @@ def _cells(poly):
     return out
 
 
-def _detected(lines, npts):
+def _detected(lines, npts, tall=False):
     from pero_ocr.layout_engines import layout_helpers as helpers
     bl, hl, tl = [], [], []
     for k, (j, a, b) in enumerate(lines):
         n = npts[k % len(npts)]
         bsl = np.stack([np.linspace(2 * a + 1, 2 * b + 1, n), np.full(n, 2 * j + 1.0)], 1)
-        h = [1.0, 1.0]
+        h = [3.0, 1.0] if tall else [1.0, 1.0]       # tall: the outline band covers the line's row and the row above
         bl.append(bsl)
         hl.append(h)
         tl.append(helpers.baseline_to_textline(bsl, h))
@@ -154,11 +157,11 @@ def run_assign(case):
     tp = bool(case.get("tp"))
     flip = (lambda a: np.ascontiguousarray(np.asarray(a, dtype=np.float64)[:, ::-1])) if tp else (lambda a: a)
     regions = [RegionLayout(n, flip(ring_of(lib, n))) for n in case["regs"]]
-    bl, hl, tl = _detected(case["lines"], case["npts"])
+    bl, hl, tl = _detected(case["lines"], case["npts"], tall=bool(case.get("tall")))
     if tp:
         bl = [flip(b) for b in bl]
         tl = [helpers.baseline_to_textline(b, h) for b, h in zip(bl, hl)]
-    tr = {"kind": "assign", "regs": list(case["regs"]), "lines": [list(x) for x in case["lines"]],
+    tr = {"kind": "assign", "tall": 1 if case.get("tall") else 0, "regs": list(case["regs"]), "lines": [list(x) for x in case["lines"]],
           "det": [_pts(flip(b)) for b in bl], "placed": [], "outcome": "ok"}
     try:
         with contextlib.redirect_stdout(io.StringIO()), warnings.catch_warnings():
@@ -201,10 +204,13 @@ def run_extract(case):
         with contextlib.redirect_stdout(io.StringIO()), warnings.catch_warnings():
             warnings.simplefilter("ignore")
             page = PageLayout(id="p", page_size=(2 * _GRID_B[1], 2 * _GRID_B[0]))
-            page.regions = [RegionLayout(n, ring_of(lib, n)) for n in case["regs"]]
+            # the supplied regions carry the ids an earlier detect-regions + multi-orientation pass gives them (r000, r000_1,
+            # r000_3): region ids that differ only by an orientation suffix must not lead to equal line ids
+            page.regions = [RegionLayout(SUPPLIED_ID[n], ring_of(lib, n)) for n in case["regs"]]
             bl, hl, tl = _detected(case["lines"], case["npts"])
             helpers.assign_lines_to_regions(bl, hl, tl, page.regions)          # the page was processed once before
             supplied = list(page.regions)                                      # (kept alive: identity is used below)
+            shape_of = {id(r0): n for r0, n in zip(supplied, case["regs"])}
             le = LayoutExtractor.__new__(LayoutExtractor)
             le.detect_regions, le.detect_lines = bool(o["dr"]), bool(o["dl"])
             le.merge_lines, le.multi_orientation = bool(o["merge"]), bool(o["multi"])
@@ -214,7 +220,7 @@ def run_extract(case):
             np.random.seed(case.get("seed", 0))
             res = le.process_page(np.zeros((2 * _GRID_B[1], 2 * _GRID_B[0], 3), dtype=np.uint8), page)
         for r in res.regions:
-            name = next((r0.id for r0 in supplied if r0 is r), None)
+            name = shape_of.get(id(r))
             if name is None:
                 for p_list in le.engine.polys:
                     for k, p in enumerate(p_list):
@@ -234,6 +240,7 @@ def run_extract(case):
 
 
 _GRID_B = (3, 2)
+SUPPLIED_ID = {"R": "r000", "N": "r000_1", "C": "r000_3"}
 
 
 def run_case(case):
@@ -380,6 +387,11 @@ def run(ctx):
                         cases.append({"kind": "assign", "lib": ln, "regs": regs, "lines": ls, "npts": npts_choices[(idx + len(regs)) % 4]})
                         if ls:      # the same configuration mirrored at the diagonal: vertical baselines
                             cases.append(dict(cases[-1], tp=True))
+                        if ls and ln == "D" and all(x[0] >= 1 for x in ls):
+                            # tall outlines (two grid rows): the outline pieces and the baseline pieces of a line that enters a
+                            # region twice no longer have the same ranking
+                            # (not mirrored: a reflection swaps the ascender and descender sides of the band)
+                            cases.append(dict(cases[-2], tall=True))
         traces = pmap(run_case, cases, procs=PROCS)
         _dbg(ctx, "part A library %s executed %d" % (ln, len(cases)))
         tconsts = constants(nc, nr, 1, 1)
